@@ -332,6 +332,15 @@ def run(ctx):
                         bad.append(text)
         gets = [bb for bb, t in g.calls() if (t.get("callee") or "").endswith("::get") and t["args"]
                 and any(x[0] == "bytes" and x[1] == tbl.get("bytes") for x in walk(g.expr_op(t["args"][0])))]
+        # the shortcut through the table must not skip the budget test the generic path performs before it allocates its
+        # result: every use of the table is dominated by a passed check_cost (otherwise a failing run allocates in one build
+        # and not in the other)
+        use_blocks = [bb for bb, _ in pr.sites() if any(text.endswith(f" < {len(rows)}") for text, _, _, _ in pr.check_site(bb)["goals"])] + gets
+        passed = [g.question_mark(cb)[0] for cb, _ in g.calls_to("cost::check_cost") if g.question_mark(cb)]
+        unchecked = [g.where(ub) for ub in use_blocks if not any(pc == ub or g.dominates(pc, ub) for pc in passed)]
+        ck.ob("R05d", p + "|budget tested before the table is used", bool(use_blocks) and not unchecked,
+              "the precomputed-hash shortcut is taken only after check_cost has passed for the cost it charges", site=g.where(0),
+              detail={"table uses without a dominating passed check_cost": unchecked})
         ck.ob("R05d", p + "|index guard", not bad and (sites + len(gets)) >= 1,
               f"every indexing of the table is proved to be below {len(rows)} (or goes through .get())", site=g.where(0),
               detail={"indexing sites": sites, "get() accesses": len(gets), "unproved": bad})
